@@ -63,3 +63,6 @@ cls("RustGenerator", _rust_iter="optref:RustIter", _dataset="ref:DatasetIteratio
 cls("FileObj", path="U", content="U", pos="int", writing="bool")
 cls("MemView", size="int", src="U", off="int", n="int")
 cls("HashObj", alg="U", fed_len="int", fed_src="U", fed_good="bool")
+
+cls("DatasetFiller", _dataset_filler_context="ref:_DatasetFillerContext", _auto_update_dataset="bool",
+    _dataset="ref:DatasetWriting", _updated_infos="list:ref:ShardListInfo")
